@@ -482,6 +482,18 @@ def threeUnsew3 (cfg : Cfg X) (n ld : Nat) : P X Unit := do
 
 /-! ## iterators (non-transactional: one `atomically` per id computation) -/
 
+/-- like `iterCells`, but `none` when an id computation panics (out-of-range image on a malformed
+    map: the Rust iterator panics as soon as it reaches that dart) -/
+def iterCellsChk (m : Map X) (idf : Nat → P X Nat) : Option (List Nat) :=
+  (List.range m.n).foldl (fun acc d =>
+    match acc with
+    | none => none
+    | some l =>
+      if d = 0 ∨ m.unused d then some l else
+      match (run (idf d) m).1 with
+      | .ok v => if v = d then some (l ++ [d]) else some l
+      | _ => none) (some [])
+
 def iterVertices3 (m : Map X) : List Nat := iterCells m (vertexId3 m.n)
 def iterEdges3 (m : Map X) : List Nat := iterCells m (edgeId3 m.n)
 def iterFaces3 (m : Map X) : List Nat := iterCells m (faceId3 m.n)
